@@ -1,9 +1,23 @@
 /-
   C14 — lexing tiles the input and decodes literals exactly.
   Property theorems only (helper lemmas live in RsjProofs/Lexer*.lean, RsjProofs/Utf8*.lean).
+
+  Model: RsjModel/Lexer.lean (`lexAll input flag` = `Lexer::new(input).lex_to_eof(flag)`,
+  `nextToken` = `next_token`), RsjModel/Utf8.lean (`decodeCont` = `decode_cont_char`).
 -/
 import RsjProofs.Lexer
+import RsjProofs.LexerNoPanic
+import RsjProofs.Utf8Spec
+import RsjProofs.Utf8Lossy
+import RsjProofs.LexerStrings
+import RsjProofs.LexerQuoted
+import RsjProofs.LexerVerbatim
+import RsjProofs.LexerNumber
+import RsjProofs.LexerTextBlock
 namespace Rsj.Lexer
+open Rsj.Utf8
+
+/-! ## Tiling, the single located error, termination, dropping trivia -/
 
 /-- **C14 lex_tiles.** If lexing with whitespace and comments succeeds, the token
     spans tile the input exactly: there is a first token and it starts at 0,
@@ -23,20 +37,30 @@ theorem C14_lex_tiles (input : List Nat) (toks : List Token)
   simp only [Nat.zero_add] at h2
   exact ⟨h2.head, h2.adj, h2.last⟩
 
-/-- **C14 lex_one_error.** The outcome of lexing is a token list or exactly one
-    error (by the shape of `Outcome`); the error's span satisfies
-    `0 ≤ start ≤ end ≤ |input|`, whichever flag is used. -/
+/-- **C14 lex_one_error.** A failed lexing is exactly one error (the shape of
+    `Outcome.err`), located inside the input: `0 ≤ start ≤ end ≤ |input|`, for
+    either value of the flag. -/
 theorem C14_lex_one_error (input : List Nat) (flag : Bool) (e : LexErr)
     (h : lexAll input flag = .err e) : e.start ≤ e.stop ∧ e.stop ≤ input.length := by
   unfold lexAll at h
   have := lexLoop_err _ _ _ _ _ h
   simpa using this
 
-/-- **C14 termination.** The fuel `|input| + 1` given to the token loop always
-    suffices: each token consumes at least one byte. -/
-theorem C14_lex_terminates (input : List Nat) (flag : Bool) : lexAll input flag ≠ .fuel := by
-  unfold lexAll
-  exact lexLoop_no_fuel _ _ _ _ (by simp)
+/-- **C14 lex_total.** Lexing any byte sequence yields tokens or one error — never a
+    panic (`unwrap` in `lex_operator`, `lex_ident`, `decode_cont_char`,
+    `lex_text_block`), and the loops terminate: the fuel `|input| + 1`
+    always suffices because every token consumes at least one byte. -/
+theorem C14_lex_total (input : List Nat) (flag : Bool) :
+    (∃ toks, lexAll input flag = .ok toks) ∨ (∃ e, lexAll input flag = .err e) := by
+  have h1 : lexAll input flag ≠ .fuel := by
+    unfold lexAll; exact lexLoop_no_fuel _ _ _ _ (by simp)
+  have h2 : ∀ s, lexAll input flag ≠ .panic s := by
+    intro s; unfold lexAll; exact lexLoop_no_panic _ _ _ _ s
+  cases h : lexAll input flag with
+  | ok toks => exact Or.inl ⟨toks, rfl⟩
+  | err e => exact Or.inr ⟨e, rfl⟩
+  | panic s => exact absurd h (h2 s)
+  | fuel => exact absurd h h1
 
 /-- **C14 drop_trivia.** Lexing without whitespace/comments is lexing with them
     followed by dropping the `Whitespace` and `Comment` tokens; all other tokens
@@ -46,11 +70,191 @@ theorem C14_drop_trivia (input : List Nat) :
   unfold lexAll
   exact lexLoop_drop _ _ []
 
-/-! Non-vacuity: a concrete input with every trivia kind, lexed by kernel evaluation. -/
+/-! Non-vacuity: concrete inputs with every trivia kind, lexed by kernel evaluation. -/
 example : lexAll (bytesOf "x/*c*/ +1") true =
     .ok [⟨.ident (bytesOf "x"), 0, 1⟩, ⟨.comment, 1, 6⟩, ⟨.whitespace, 6, 7⟩,
          ⟨.simple .Plus, 7, 8⟩, ⟨.number [49] 0, 8, 9⟩, ⟨.eof, 9, 9⟩] := by decide
 example : lexAll (bytesOf "1 @") true = .err ⟨.InvalidChar 64, 2, 3⟩ := by decide
+
+/-! ## UTF-8 decoding -/
+
+/-- **C14 decode_matches_spec.** On byte input, the model of `decode_cont_char`
+    performs exactly one step of lossy UTF-8 decoding as specified against the
+    encoder: if the encoding of a scalar value starts the input, that scalar and
+    its length; otherwise U+FFFD for the maximal subpart of the ill-formed
+    sequence (`String::from_utf8_lossy`).  `n` counts continuation bytes, so
+    `n + 1` bytes are consumed. -/
+theorem C14_decode_matches_spec (b0 : Nat) (rest : List Nat) (hb : IsBytes (b0 :: rest)) :
+    match decodeCont b0 rest with
+    | .chr n c => DecodeStep (b0 :: rest) (n + 1) (some c)
+    | .bad n => DecodeStep (b0 :: rest) (n + 1) none
+    | .panic => False :=
+  decodeCont_spec hb
+
+/-- The specification step is a function of the input, so the theorem above
+    characterises `decodeCont` completely. -/
+theorem C14_decode_spec_functional {bs : List Nat} {n n' : Nat} {r r' : Option Nat}
+    (h : DecodeStep bs n r) (h' : DecodeStep bs n' r') : n = n' ∧ r = r' :=
+  h.unique h'
+
+/-- `char::from_u32(cp).unwrap()` in `decode_cont_char` cannot fail, whatever follows the lead byte. -/
+theorem C14_decode_never_panics (b0 : Nat) (rest : List Nat) : decodeCont b0 rest ≠ .panic :=
+  decodeCont_no_panic b0 rest
+
+/-- Whole-string lossy decoding (`Lossy` = `DecodeStep` repeated to the end) is a
+    function, and the model's decoder computes it. -/
+theorem C14_lossy_functional {bs out out' : List Nat} (h : Lossy bs out) (h' : Lossy bs out') :
+    out = out' := h.unique h'
+
+theorem C14_lossy_model (bs : List Nat) (hb : IsBytes bs) :
+    ∃ out, lossyModel bs = some out ∧ Lossy bs out := lossyModel_spec bs hb
+
+/-! Non-vacuity: a three-byte scalar, a truncated one (maximal subpart of two bytes), an overlong lead. -/
+example : IsBytes [0xE2, 0x82, 0xAC, 0x41] ∧ decodeCont 0xE2 [0x82, 0xAC, 0x41] = .chr 2 0x20AC :=
+  ⟨by intro b hb; simp at hb; omega, by decide⟩
+example : decodeCont 0xE2 [0x82, 0x41] = .bad 1 ∧ decodeCont 0xC1 [0x81] = .bad 0 ∧
+    decodeCont 0xED [0xA0, 0x80] = .bad 0 ∧ decodeCont 0xF4 [0x90, 0x80, 0x80] = .bad 0 := by decide
+
+/-! ## Strings -/
+
+/-- **C14 string_body_lossy.** A quoted string whose body contains neither the
+    delimiter nor a backslash lexes to one `String` token spanning the literal
+    whose value is the lossy decoding of the body bytes. -/
+theorem C14_string_body_lossy (p delim : Nat) (hd : delim = 34 ∨ delim = 39) (body tail : List Nat)
+    (hb : IsBytes body) (hne : ∀ b ∈ body, b ≠ delim ∧ b ≠ 92) :
+    ∃ out, Lossy body out ∧
+      nextToken ⟨p, delim :: (body ++ delim :: tail)⟩ =
+        .tok (.string out) ⟨p + body.length + 2, tail⟩ :=
+  nextToken_quoted_plain p delim hd body tail hb hne
+
+/-- **C14 escape_decode.** A quoted string whose body is any sequence of raw byte
+    runs (no delimiter, no backslash) and escape sequences — the nine
+    single-character escapes, `\uXXXX` for a non-surrogate code unit, and
+    `\uHHHH\uLLLL` for a high+low surrogate pair — lexes to the concatenation of
+    the lossily decoded runs and the escaped scalars
+    (`0x10000 + (H − 0xD800)·0x400 + (L − 0xDC00)` for a pair). -/
+theorem C14_escape_decode (p delim : Nat) (hd : delim = 34 ∨ delim = 39) (segs : List Seg)
+    (tail : List Nat) (hwf : SegsWF delim segs) :
+    ∃ out, SegsValue segs out ∧
+      nextToken ⟨p, delim :: (segBytes segs ++ delim :: tail)⟩ =
+        .tok (.string out) ⟨p + (segBytes segs).length + 2, tail⟩ :=
+  nextToken_quoted p delim hd segs tail hwf
+
+/-- **C14 verbatim_value.** A verbatim string `@'…'` / `@"…"` whose body is any
+    sequence of raw byte runs (no delimiter) and doubled delimiters lexes to the
+    lossily decoded runs with each doubled delimiter halved. -/
+theorem C14_verbatim_value (p delim : Nat) (hd : delim = 34 ∨ delim = 39) (segs : List VSeg)
+    (tail : List Nat) (htl : ∀ t', tail ≠ delim :: t') (hwf : VSegsWF delim segs) :
+    ∃ out, VSegsValue delim segs out ∧
+      nextToken ⟨p, 64 :: delim :: (vsegBytes delim segs ++ delim :: tail)⟩ =
+        .tok (.string out) ⟨p + (vsegBytes delim segs).length + 3, tail⟩ :=
+  nextToken_verbatim p delim hd segs tail htl hwf
+
+/-- The token-driven direction for strings: every `String` token the lexer
+    produces spans a literal of one of the two well-formed shapes above and
+    carries its value.  NOT PROVED: what is missing is the acceptance half —
+    that `lex_quoted_string` / `lex_verbatim_string` reject every body that is
+    not of these shapes (the check `checks/c14.py` tests this direction on the
+    implementation with an independent unescaper).  Given acceptance, this
+    follows from `C14_escape_decode` / `C14_verbatim_value` because `nextToken`
+    is a function. -/
+def C14_string_value_full : Prop :=
+  ∀ (c c' : Cur) (out : List Nat), nextToken c = .tok (.string out) c' →
+    (∃ delim segs, (delim = 34 ∨ delim = 39) ∧ SegsWF delim segs ∧ SegsValue segs out ∧
+        c.rest.take (c'.pos - c.pos) = delim :: (segBytes segs ++ [delim])) ∨
+    (∃ delim segs, (delim = 34 ∨ delim = 39) ∧ VSegsWF delim segs ∧ VSegsValue delim segs out ∧
+        c.rest.take (c'.pos - c.pos) = 64 :: delim :: (vsegBytes delim segs ++ [delim]))
+
+/-! Non-vacuity: `'aé😀' x` with a raw run, a BMP escape and a surrogate pair. -/
+example : ∃ segs, SegsWF 39 segs ∧ SegsValue segs [97, 0xE9, 0x1F600] ∧
+    segBytes segs = bytesOf "a\\u00e9\\ud83d\\ude00" := by
+  refine ⟨[.raw [97], .esc (bytesOf "u00e9") 0xE9, .esc (bytesOf "ud83d\\ude00") 0x1F600], ?_, ?_, by decide⟩
+  · refine ⟨by intro b hb; simp at hb; omega, by intro b hb; simp at hb; omega, trivial, ?_, ?_, trivial⟩
+    · exact Or.inr (Or.inl ⟨bytesOf "00e9", by decide,
+        ⟨48, 48, 101, 57, 0, 0, 14, 9, by decide, by decide, by decide, by decide, by decide, by decide⟩,
+        by omega⟩)
+    · exact Or.inr (Or.inr ⟨bytesOf "d83d", bytesOf "de00", 0xD83D, 0xDE00, by decide,
+        ⟨100, 56, 51, 100, 13, 8, 3, 13, by decide, by decide, by decide, by decide, by decide, by decide⟩,
+        ⟨100, 101, 48, 48, 13, 14, 0, 0, by decide, by decide, by decide, by decide, by decide, by decide⟩,
+        by omega, by omega, by decide⟩)
+  · have h1 : Lossy [97] [97] := by
+      have := decodeCont_spec (b0 := 97) (rest := []) (by intro b hb; simp at hb; omega)
+      exact Lossy.step (r := some 97) (by simp) this Lossy.nil
+    exact SegsValue.raw h1 (SegsValue.esc (SegsValue.esc SegsValue.nil))
+example : lexAll (bytesOf "'a\\u00e9\\ud83d\\ude00' @\"x\"\"\"") false =
+    .ok [⟨.string [97, 0xE9, 0x1F600], 0, 21⟩, ⟨.string [120, 34], 22, 28⟩, ⟨.eof, 28, 28⟩] := by decide
+
+/-! ## Numbers -/
+
+/-- **C14 number_value.** Every number token `next_token` returns carries exactly
+    the value of the literal text it spans: `digits` are the integer digits
+    followed by the fractional digits (underscores removed), `exp` is the
+    written exponent minus the number of fractional digits, and therefore
+    `digits × 10^exp` equals the rational number the text denotes
+    (`(int + 0.frac) × 10^(±exponent)`). -/
+theorem C14_number_value (c c' : Cur) (digits : List Nat) (exp : Int)
+    (h : nextToken c = .tok (.number digits exp) c') :
+    digits = (litParts (c.rest.take (c'.pos - c.pos))).ip ++ (litParts (c.rest.take (c'.pos - c.pos))).fp ∧
+    exp = (litParts (c.rest.take (c'.pos - c.pos))).exp ∧
+    numValue digits exp = litValue (c.rest.take (c'.pos - c.pos)) := by
+  obtain ⟨h1, h2⟩ := nextToken_number_parts h
+  refine ⟨h1, h2, ?_⟩
+  rw [h1, h2]
+  exact LitParts.value_eq _
+
+/-! Non-vacuity: `1_0.2_5e-1_2` is the token (digits "1025", exp −14). -/
+example : nextToken ⟨0, bytesOf "1_0.2_5e-1_2+"⟩ =
+    .tok (.number (bytesOf "1025") (-14)) ⟨12, bytesOf "+"⟩ := by decide
+example : litParts (bytesOf "1_0.2_5e-1_2") = ⟨bytesOf "10", bytesOf "25", true, bytesOf "12"⟩ := by
+  decide
+
+/-! ## Text blocks -/
+
+/-- **C14 textblock_strip (partial).** A text block of the shape
+    `|||` [`-`] ws* LF, `k0` fully empty lines, a first line `pfx content LF`
+    with a non-empty space/tab prefix, then lines that are empty (`LF`) or
+    `pfx content LF`, then a terminator line `ws* |||` that does not begin with
+    `pfx`, lexes to one `TextBlock` token whose value is the `k0` newlines
+    followed by every line without the prefix, lossily decoded, newline kept;
+    `|||-` drops exactly the final newline (`finishTb`).
+
+    Missing for the full statement (`C14_textblock_strip_full`): the CR LF
+    variants as coded (a CR directly after the first prefix, `CR LF` empty
+    lines), a first content starting with a space/tab (longer prefix) and the
+    token-driven direction (every accepted block is of a well-formed shape). -/
+theorem C14_textblock_strip_partial (p : Nat) (strip : Bool) (ws0 : List Nat) (k0 : Nat)
+    (pfx c1 : List Nat) (L : List TbLine) (tws tail : List Nat)
+    (hws0 : ∀ b ∈ ws0, isSpTabCr b = true) (hpne : pfx ≠ []) (hpfx : ∀ b ∈ pfx, isSpTab b = true)
+    (hc1 : IsBytes c1) (hc1n : ∀ b ∈ c1, b ≠ 10)
+    (hc1h : ∀ y t, c1 = y :: t → isSpTab y = false ∧ y ≠ 13)
+    (hL : LinesWF L) (htws : ∀ b ∈ tws, isSpTab b = true)
+    (hterm : pfx.isPrefixOf (tws ++ 124 :: 124 :: 124 :: tail) = false) :
+    ∃ o1 out, Lossy c1 o1 ∧ LinesValue L out ∧
+      nextToken ⟨p, 124 :: 124 :: 124 :: tbSource strip ws0 k0 pfx c1 L tws tail⟩ =
+        .tok (.textBlock (finishTb strip (List.replicate k0 10 ++ (o1 ++ 10 :: out))))
+          ⟨p + 3 + ((tbSource strip ws0 k0 pfx c1 L tws tail).length - tail.length), tail⟩ :=
+  nextToken_textBlock p strip ws0 k0 pfx c1 L tws tail hws0 hpne hpfx hc1 hc1n hc1h hL htws hterm
+
+/-- Full statement (unproved): every `TextBlock` token is the stripped, lossily
+    decoded text of the lines it spans, including the CR LF forms. Lines are
+    split at LF; a line consisting of an optional CR only counts as empty. -/
+def C14_textblock_strip_full : Prop :=
+  ∀ (c c' : Cur) (out : List Nat), nextToken c = .tok (.textBlock out) c' →
+    ∃ (strip : Bool) (hdr pfx : List Nat) (lines : List (List Nat)) (term : List Nat),
+      c.rest.take (c'.pos - c.pos) =
+        124 :: 124 :: 124 :: ((if strip then [45] else []) ++ hdr ++ 10 ::
+          (lines.flatMap (fun l => l ++ [10]) ++ term ++ [124, 124, 124])) ∧
+      (∀ b ∈ hdr, isSpTabCr b = true) ∧ (∀ b ∈ term, isSpTab b = true) ∧
+      pfx ≠ [] ∧ (∀ b ∈ pfx, isSpTab b = true) ∧
+      (∀ l ∈ lines, 10 ∉ l ∧ (l = [] ∨ l = [13] ∨ pfx <+: l)) ∧
+      ∃ full, Lossy (lines.flatMap (fun l => (if pfx <+: l then l.drop pfx.length else l) ++ [10])) full ∧
+        out = finishTb strip full
+
+/-! Non-vacuity: `|||-`, an empty first line, tab prefix, an empty line in the middle. -/
+example : nextToken ⟨0, bytesOf "|||- \n\n\ta\n\n\t b\n |||;"⟩ =
+    .tok (.textBlock (bytesOf "\na\n\n b")) ⟨19, bytesOf ";"⟩ := by decide
+example : bytesOf "|||- \n\n\ta\n\n\t b\n |||;" =
+    124 :: 124 :: 124 :: tbSource true [32] 1 [9] [97] [.blank, .text [32, 98]] [32] [59] := by decide
 
 end Rsj.Lexer
 
@@ -59,6 +263,26 @@ open Rsj.Lexer in
 open Rsj.Lexer in
 #print axioms C14_lex_one_error
 open Rsj.Lexer in
-#print axioms C14_lex_terminates
+#print axioms C14_lex_total
 open Rsj.Lexer in
 #print axioms C14_drop_trivia
+open Rsj.Lexer in
+#print axioms C14_decode_matches_spec
+open Rsj.Lexer in
+#print axioms C14_decode_spec_functional
+open Rsj.Lexer in
+#print axioms C14_decode_never_panics
+open Rsj.Lexer in
+#print axioms C14_lossy_functional
+open Rsj.Lexer in
+#print axioms C14_lossy_model
+open Rsj.Lexer in
+#print axioms C14_string_body_lossy
+open Rsj.Lexer in
+#print axioms C14_escape_decode
+open Rsj.Lexer in
+#print axioms C14_verbatim_value
+open Rsj.Lexer in
+#print axioms C14_number_value
+open Rsj.Lexer in
+#print axioms C14_textblock_strip_partial
